@@ -146,10 +146,20 @@ def one(ctx, fam, i):
         provided = dict(inputs)
     nested_exposure(ctx, built, spec, case)
     cache = None
+    tmpdir = None
     if fam["family"] == "cached" or any(ns.get("cache") for ns in spec["nodes"]):
-        from hypergraph import InMemoryCache
+        from hypergraph import DiskCache, InMemoryCache
 
-        cache = InMemoryCache()
+        if rng.random() < 0.4:
+            import os
+            import tempfile
+
+            os.makedirs(os.path.join(core.VERIF, ".work"), exist_ok=True)
+            tmpdir = tempfile.mkdtemp(prefix="hgc16-", dir=os.path.join(core.VERIF, ".work"))
+            cache = DiskCache(tmpdir)
+            ctx.obs["disk_cache_programs"] += 1
+        else:
+            cache = InMemoryCache()
     kw = {"select": rsel} if rsel else {}
     fids = [f for f, ns in all_fids(spec).items() if ns["k"] == "fn"]
     for runner in ("sync", "async"):
@@ -177,6 +187,14 @@ def one(ctx, fam, i):
                 ctx.obs["status:" + o.status] += 1
                 check_values(ctx, spec, o.values, effective, label, c2)
                 check_scope(ctx, spec, o.rec, label, c2)
+    if tmpdir:
+        import shutil
+
+        try:
+            cache._cache.close()
+        except Exception:  # noqa: BLE001
+            pass
+        shutil.rmtree(tmpdir, ignore_errors=True)
     # on_missing policy for a selected name that is not produced
     produced_probe = core.execute(built, provided, "sync" if not any(ns["k"] == "int" for ns in spec["nodes"]) else "async", error_handling="continue", max_iterations=100)
     if produced_probe.exc is None and produced_probe.status == "completed":
